@@ -26,8 +26,8 @@ Tolerance decision (b, c): exact comparison was tried first and fails on the UNC
 object (run / reset / run) differ in the last bits (observed max relative difference 1e-16 .. 1e-13).  Cause:
 wntr/sim/aml/evaluator.cpp keeps variables and constraints in `std::set<Var*>` / `std::set<Constraint*>`, i.e. ordered by heap
 address, so every newly built hydraulic model numbers its unknowns / rows differently and SuperLU pivots differently.  Hence
-continuous tables are compared with |x - y| <= 1e-9 * max(|x|, |y|) + 1e-9 * max(1e-3, max|table|) (four orders above the
-observed noise, and still below the ~1e-8 effect of a stale valve status found by the self-test); link status tables, the
+continuous tables are compared with |x - y| <= 1e-9 * max(|x|, |y|) + 1e-9 * max(1e-3, max|table|) (observed noise on that scale: mostly <= 1e-13, worst 1.2e-11 over 250 random models;
+still below the ~1e-8 effect of a stale valve status found by the self-test); link status tables, the
 time index, error codes and exception outcomes are compared exactly.  The histogram records the observed noise
 (`rerun-noise:*`).  The same tolerance is the statement's "floating-point noise" for deepcopy / reloaded models.
 """
@@ -1514,16 +1514,22 @@ def cmp_outcomes(a, b, rtol=RTOL):
 
 
 def max_rel_diff(a, b):
+    """largest |x - y| / (max(|x|, |y|) + max(1e-3, max|table|)) over the continuous tables: the observed rerun noise on the
+    scale the comparison uses"""
     import numpy as np
 
     m = 0.0
     if a[0] != "ok" or b[0] != "ok":
         return m
     for k in a[1]:
+        if k.endswith(".status"):
+            continue
         if k in b[1] and a[1][k][2].shape == b[1][k][2].shape:
             va, vb = a[1][k][2], b[1][k][2]
+            fin = np.where(np.isfinite(va), np.abs(va), 0.0)
+            scale = max(1e-3, float(fin.max()) if fin.size else 0.0)
             with np.errstate(invalid="ignore", divide="ignore"):
-                d = np.abs(va - vb) / np.maximum(1e-300, np.maximum(np.abs(va), np.abs(vb)))
+                d = np.abs(va - vb) / (np.maximum(np.abs(va), np.abs(vb)) + scale)
             d = np.where(np.isfinite(d), d, 0.0)
             if d.size:
                 m = max(m, float(d.max()))
@@ -1639,6 +1645,73 @@ class WriteTrace:
                     pass
         self._patched = []
         return False
+
+
+class ReadTrace(WriteTrace):
+    """records which STORAGE fields (entries of the instance __dict__) of model-owned objects are read while active
+    (used around one wn.to_dict() call to cross-check Gen.toDictReads, whose entries come from ast of the property getters)"""
+
+    def __init__(self, wntr, wn):
+        WriteTrace.__init__(self, wntr, wn)
+        TS = wntr.network.elements.TimeSeries
+        R = Resolver({})
+        self.ts_get = {}
+        for pn in dir(TS):
+            if isinstance(getattr(TS, pn, None), property):
+                for f in R.getter_storage(TS, pn):
+                    self.ts_get.setdefault(f.split(".")[0], []).append(pn)
+
+    def __enter__(self):
+        classes = []
+        for (cls, prefix, o) in self.owned.values():
+            if type(o) not in classes:
+                classes.append(type(o))
+        owned, observed, ts_get = self.owned, self.observed, self.ts_get
+        oga = object.__getattribute__
+        for K in classes:
+            had = "__getattribute__" in K.__dict__
+            prev = K.__dict__.get("__getattribute__")
+            orig = K.__getattribute__
+
+            def make(orig):
+                def rec(self, name):
+                    v = orig(self, name)
+                    if name[:2] != "__":
+                        ent = owned.get(id(self))
+                        if ent is not None and ent[2] is self and name in oga(self, "__dict__"):
+                            cls, prefix, _ = ent
+                            if (cls, prefix + name) not in observed:
+                                if prefix and type(self).__name__ == "TimeSeries":
+                                    observed[(cls, prefix + name)] = [prefix + pn for pn in ts_get.get(name, [])] + [prefix + name]
+                                else:
+                                    observed[(cls, prefix + name)] = [prefix + name]
+                    return v
+                return rec
+
+            K.__getattribute__ = make(orig)
+            self._patched.append((K, had, prev))
+        return self
+
+    def __exit__(self, *exc):
+        for K, had, prev in reversed(self._patched):
+            if had:
+                K.__getattribute__ = prev
+            else:
+                try:
+                    del K.__getattribute__
+                except AttributeError:
+                    pass
+        self._patched = []
+        return False
+
+
+def read_covered(slot, reads_by_cls):
+    """an observed storage read is covered when the table lists it, an ancestor path of it, or a path below it"""
+    c, f = slot
+    for e in reads_by_cls.get(c, ()):
+        if e == f or e.startswith(f + ".") or f.startswith(e + "."):
+            return True
+    return False
 
 
 def state_dump(wn, slots):
@@ -1768,6 +1841,10 @@ class Judge:
         self.wntr, self.tabs, self.tmpdir, self.ctx = wntr, tabs, tmpdir, ctx
         self.written = set(tabs["writtenByActions"]) | set(tabs["writtenBySim"])
         self.uncovered = {}  # slot -> where (tie d)
+        self.uncovered_reads = {}
+        self.reads_by_cls = {}
+        for c, f in tabs["toDictReads"]:
+            self.reads_by_cls.setdefault(c, set()).add(f)
         self.nruns = 0
 
     def count(self, k, n=1):
@@ -1805,6 +1882,26 @@ class Judge:
                 pass
         return out
 
+    def _diff(self, ref, other, spec, tag):
+        """None when the two outcomes agree (1e-9 relative); a difference that is small (<= 1e-6 on the comparison's scale) is
+        measured against the model's own noise floor -- two never-run, reset-only twins of the same spec simulated one after the
+        other -- and accepted when it is within 1000 x that floor (ill-conditioned networks amplify the ordering noise)."""
+        d = cmp_outcomes(ref, other)
+        if d is None or ref[0] != "ok" or other[0] != "ok":
+            return d
+        m = max_rel_diff(ref, other)
+        if m > 1e-6 or cmp_outcomes(ref, other, rtol=1e-6) is not None:
+            return d
+        key = json.dumps(spec, sort_keys=True)
+        if getattr(self, "_floor_key", None) != key:
+            a = self._run(wn_reset_twin(self.wntr, spec), spec)
+            b = self._run(wn_reset_twin(self.wntr, spec), spec)
+            self._floor_key, self._floor = key, max_rel_diff(a, b)
+        if m <= 1e3 * max(self._floor, 1e-15):
+            self.count("within-model-noise-floor:" + tag)
+            return None
+        return d + " (noise floor of this model %.1e, difference %.1e)" % (self._floor, m)
+
     def _used_model(self, spec):
         """a model that has been run once and reset (carries whatever reset_initial_values leaves behind)"""
         w = build_model(self.wntr, spec, fresh=True)
@@ -1819,7 +1916,7 @@ class Judge:
         for g in groups[:8]:
             w = make()
             copy_slots(twin, w, [h for h in groups if h != g])
-            if cmp_outcomes(self._run(w, spec), ref) is not None:
+            if self._diff(ref, self._run(w, spec), spec, "causal") is not None:
                 out.append(g)
         return out
 
@@ -1833,7 +1930,15 @@ class Judge:
         wn.reset_initial_values()
         R0 = state_dump(wn, self.written)
         fresh_diff = dump_diff(F, R0)
-        d0 = to_dict_norm(wn)
+        if light:
+            d0 = to_dict_norm(wn)
+        else:
+            with ReadTrace(wntr, wn) as rt:
+                d0 = to_dict_norm(wn)
+            for slot, cands in rt.observed.items():
+                self.count("to_dict-read:" + slot[0])
+                if not any(read_covered((slot[0], f), self.reads_by_cls) for f in cands):
+                    self.uncovered_reads.setdefault(slot, "wn.to_dict() reads storage field %s.%s (as any of %s)" % (slot[0], slot[1], cands))
         # ---- a. WNTRSimulator leaves to_dict alone
         r1 = self._run(wn, spec, trace=not light)
         d1 = to_dict_norm(wn)
@@ -1845,12 +1950,15 @@ class Judge:
         if not out:
             out += self._dict_failures(d0, d1r, "WNTRSimulator+reset", spec)
         r2 = self._run(wn, spec)
-        diff12 = cmp_outcomes(r1, r2)
+        diff12 = self._diff(r1, r2, spec, "rerun")
         self.count("outcome:" + r1[0] + (":" + r1[1] if r1[0] == "raised" else ""))
         self.count("rerun:" + ("same" if diff12 is None else "differs"))
         left = dump_diff(R0, R1)
         mr = max_rel_diff(r1, r2)
-        self.count("rerun-noise:" + ("0" if mr == 0 else "<=1e-12" if mr <= 1e-12 else "<=1e-9" if mr <= 1e-9 else "<=1e-6" if mr <= 1e-6 else ">1e-6"))
+        self.count("rerun-noise:" + ("0" if mr == 0 else "<=1e-14" if mr <= 1e-14 else "<=1e-12" if mr <= 1e-12 else "<=1e-10" if mr <= 1e-10
+                                     else "<=1e-9" if mr <= 1e-9 else ">1e-9"))
+        if self.ctx is not None:
+            self.ctx.cov["max_rerun_noise"] = max(self.ctx.cov.get("max_rerun_noise", 0.0), mr if diff12 is None else 0.0)
         dict_changed = [k for k, _, _ in out if k.startswith("to_dict-changed")]
         reads = set(self.tabs["toDictReads"])
         causal_left = []
@@ -1873,7 +1981,7 @@ class Judge:
         if third or (not light and len(spec.get("controls", [])) % 3 == 0):
             wn.reset_initial_values()
             r3 = self._run(wn, spec)
-            d3 = cmp_outcomes(r2, r3)
+            d3 = self._diff(r2, r3, spec, "third")
             self.count("third-cycle:" + ("same" if d3 is None else "differs"))
             if d3 is not None and diff12 is None:
                 out.append(("rerun-differs-after-reset", "third run / reset / run cycle gives different results: " + d3, {"cycle": 3}))
@@ -1881,7 +1989,7 @@ class Judge:
         if fresh_diff:
             wf = build_model(wntr, spec, fresh=True)
             rf = self._run(wf, spec)
-            dfr = cmp_outcomes(rf, r1)
+            dfr = self._diff(r1, rf, spec, "fresh")
             for (c, f), items in fresh_diff.items():
                 self.count("fresh-differs-from-reset:%s.%s" % (c, f))
             if dfr is not None:
@@ -1901,7 +2009,7 @@ class Judge:
         wn.reset_initial_values()
         wc = copy.deepcopy(wn)
         rc = self._run(wc, spec)
-        dc = cmp_outcomes(r1, rc)
+        dc = self._diff(r1, rc, spec, "deepcopy")
         self.count("deepcopy:" + ("same" if dc is None else "differs"))
         if dc is not None:
             out.append(("copy-differs:deepcopy", "a deepcopy of the (reset) model simulates differently: " + dc, {}))
@@ -1916,12 +2024,12 @@ class Judge:
             self.count("json-copy:not-an-equal-model(C13)")
         if wj is not None and same_def:
             rj = self._run(wj, spec)  # as reloaded, no reset
-            dj_ = cmp_outcomes(r1, rj)
+            dj_ = self._diff(r1, rj, spec, "json")
             self.count("json-copy:" + ("same" if dj_ is None else "differs"))
             if dj_ is not None:
                 wj.reset_initial_values()
                 rj2 = self._run(wj, spec)
-                if cmp_outcomes(r1, rj2) is None:
+                if self._diff(r1, rj2, spec, "json-reset") is None:
                     mk = lambda: wntr.network.from_dict(json.loads(json.dumps(wn.to_dict())))
                     Fj = dump_diff(state_dump(mk(), self.written), R0)
                     groups = sorted(g for g in Fj if g[0] in ELEMENT_CLASSES)
@@ -1954,7 +2062,7 @@ class Judge:
                 out.append(("epanet-rerun-differs", "two consecutive EpanetSimulator runs of the same model differ: " + dee, {}))
             # WNTRSimulator after an EPANET run (no reset in between) still reproduces
             r4 = self._run(wn, spec)
-            d4 = cmp_outcomes(r1, r4)
+            d4 = self._diff(r1, r4, spec, "after-epanet")
             self.count("wntr-after-epanet:" + ("same" if d4 is None else "differs"))
             if d4 is not None:
                 out.append(("rerun-differs-after-EpanetSimulator", "a WNTRSimulator run after an EpanetSimulator run of the reset model differs: " + d4, {}))
@@ -2174,6 +2282,9 @@ class C11(Check):
         for slot, where in sorted(J.uncovered.items()):
             broken.append(Broken("correspondence", "C11 write trace not covered by Gen.written",
                                  "run-time assignment to slot %s.%s observed at %s; the static tables do not list it" % (slot[0], slot[1], where)))
+        for slot, where in sorted(J.uncovered_reads.items()):
+            broken.append(Broken("correspondence", "C11 to_dict read trace not covered by Gen.toDictReads",
+                                 "%s; slot %s.%s is not in the static table (nor a path above / below it)" % (where, slot[0], slot[1])))
         return failures, broken
 
     def correspondence(self, ctx):
